@@ -341,6 +341,18 @@ def rule_lifting(ctx):
             oko, what = in_source_order(arm["body"], vis[0], arm["pat"], "initializations")
             ex = unconditional(arm["body"], vis[0])
             ctx.check(R, "InitializationBlock/statements-in-source-order", oko and not ex, "the initialisation statements are lifted in the order of: %s%s (`var a = e, b[a]` declares b after a is assigned)" % (what, (" under %s" % ex) if ex else ""), site(LF, vis[0]))
+    # every statement kind that is not control flow or a block is appended: no arm (guarded or not) drops a statement
+    ms_all = [m for m in walk(fn["body"]) if m["k"] == "Match" and render(strip(m["scrut"])) == "stmt"]
+    if ms_all:
+        control = {"While", "IfThenElse", "Block", "InitializationBlock"}
+        for a in ms_all[0]["arms"]:
+            kinds_ = {last(p) for p in pat_paths(a["pat"])}
+            if kinds_ & control and not (kinds_ - control) and a.get("guard") is None:
+                continue
+            app = list(method_calls(a["body"], "append_statement"))
+            lifted = [x for x in app if "stmt.try_lift(" in render(x).replace(" ", "") and not unconditional(a["body"], x)]
+            keyk = "|".join(sorted(kinds_)) or "?"
+            ctx.check(R, "%s/statement-kept" % keyk, bool(lifted), "arm `%s%s` does not append the lifted statement to the current block: the statement is executed by the source but met on no walk of the graph" % (render(a["pat"])[:50], (" if " + render(a["guard"])[:50]) if a.get("guard") is not None else ""), site(LF, a))
     # other statements: appended to the current block, no predecessors
     for a in [x for x in (arm_of(fn, "Declaration"), arm_of(fn, "_")) if x is not None]:
         nm = "Declaration" if "Declaration" in render(a["pat"]) else "other"
